@@ -98,7 +98,7 @@ static struct wake wk;
 static void act_cb(evutil_socket_t fd, short what, void *arg) { (void)fd; (void)what; (void)arg; wk.act_runs++; wk.act_at = vclock_us; }
 static void tmr_cb(evutil_socket_t fd, short what, void *arg) { (void)fd; (void)arg; wk.tmr_runs++; wk.tmr_at = vclock_us; if (what != EV_TIMEOUT) mc_fail("C09/wake/timer-flags", "what=%#x", what); }
 static void io_cb(evutil_socket_t fd, short what, void *arg) { char c; (void)what; (void)arg; wk.io_runs++; wk.io_at = vclock_us; if (read(fd, &c, 1) < 0) {} }
-static const char *wake_opname[] = { "none", "event_active", "event_add(timer 1ms)", "event_add(read on readable pipe)", "event_base_loopbreak" };
+static const char *wake_opname[] = { "none", "event_active", "event_add(timer 1ms)", "event_add(read on readable pipe)", "event_base_loopbreak", "stray event_base_loop(NONBLOCK)" };
 static void wake_do(int op)
 {
 	struct timeval ms = { 0, 1000 };
@@ -107,6 +107,12 @@ static void wake_do(int op)
 	case 2: wk.tmr_added_at = vclock_us; event_add(wk.ev_tmr, &ms); break;
 	case 3: event_add(wk.ev_io, NULL); break;
 	case 4: wk.broke = 1; event_base_loopbreak(base); break;
+	case 5:
+		/* a second thread calls event_base_loop() while the loop runs elsewhere: the call is
+		 * rejected ("reentrant invocation") and must not disturb the running loop's identity.
+		 * Only issued once the loop thread is known to be inside its loop. */
+		if (loop_started && !loop_exited) event_base_loop(base, EVLOOP_NONBLOCK);
+		break;
 	}
 }
 static void wake_actor(void *arg)
@@ -135,7 +141,7 @@ static void scen_wake(void)
 	wk.ev_tmr = evtimer_new(base, tmr_cb, NULL);
 	wk.ev_io = event_new(base, wk.pipefd[0], EV_READ, io_cb, NULL);
 	wk.nops = 1 + pick(2, "nops");
-	for (int i = 0; i < wk.nops; i++) wk.ops[i] = 1 + pick(4, "op");
+	for (int i = 0; i < wk.nops; i++) wk.ops[i] = 1 + pick(5, "op");
 	mc_observe("wake ops: %s", wake_opname[wk.ops[0]]);
 	if (wk.nops > 1) mc_observe(" ; %s", wake_opname[wk.ops[1]]);
 	arm_started();
@@ -438,7 +444,7 @@ static void body(void)
 #ifdef C09_FREE
 /* free-running pass: item = (repetition, driver parameters); repetition only changes the jitter */
 static uint64_t combo_cap;
-static uint64_t combos(const char *s) { uint64_t c = !strcmp(s, "wake") ? 32 : !strcmp(s, "del") ? 24 : !strcmp(s, "buf") ? 2401 : !strcmp(s, "mix") ? 1296 : 2; return combo_cap && combo_cap < c ? combo_cap : c; }
+static uint64_t combos(const char *s) { uint64_t c = !strcmp(s, "wake") ? 50 : !strcmp(s, "del") ? 24 : !strcmp(s, "buf") ? 2401 : !strcmp(s, "mix") ? 1296 : 2; return combo_cap && combo_cap < c ? combo_cap : c; }
 static void free_item_fn(uint64_t i)
 {
 	uint64_t c = combos(scen_arg);
